@@ -8,6 +8,7 @@ import (
 	"os"
 	"path/filepath"
 	"runtime"
+	"runtime/pprof"
 	"sort"
 	"strconv"
 	"strings"
@@ -144,8 +145,17 @@ func main() {
 	if v := os.Getenv("VERIF_DIR"); v != "" {
 		verifDir = v
 	}
+	if pf := os.Getenv("GOSYM_PROF"); pf != "" {
+		f, _ := os.Create(pf)
+		pprof.StartCPUProfile(f)
+		defer pprof.StopCPUProfile()
+	}
 	switch os.Args[1] {
 	case "check":
+		code := cmdCheck(os.Args[2:])
+		pprof.StopCPUProfile()
+		os.Exit(code)
+	case "check-old":
 		os.Exit(cmdCheck(os.Args[2:]))
 	default:
 		fmt.Fprintln(os.Stderr, "unknown command", os.Args[1])
